@@ -155,6 +155,10 @@ func c05Alphabet(t c05Target) []([]mOp) {
 	one(mOp{Kind: "clear"})
 	one(mOp{Kind: "load"})
 	al = append(al, []mOp{{Kind: "save"}, {Kind: "load"}})
+	// rules that exist in memory only (auto-save off) and a reload from the store, which does not
+	// have them: their links must go with them, also when the store has NO rule of the definition
+	al = append(al, []mOp{{Kind: "autosave", B: false}, {Kind: "add", Pt: pt, R1: [][]string{R[0]}}, {Kind: "add", Pt: pt, R1: [][]string{R[2]}}, {Kind: "load"}, {Kind: "autosave", B: true}})
+	al = append(al, []mOp{{Kind: "autosave", B: false}, {Kind: "addmany", Pt: pt, R1: [][]string{R[1], R[3]}}, {Kind: "add", Pt: t.other, R1: [][]string{t.otherR[0]}}, {Kind: "load"}, {Kind: "autosave", B: true}})
 	// the other definition / type: must not disturb this one
 	one(mOp{Kind: "add", Pt: t.other, R1: [][]string{t.otherR[0]}})
 	one(mOp{Kind: "remove", Pt: t.other, R1: [][]string{t.otherR[0]}})
@@ -195,9 +199,9 @@ func init() {
 		c.Rule = "state-space enumeration: every reachable ordered list of grouping rules over a 4-rule universe (with a cycle) x an alphabet of ~30 calls (single/batch/Ex add, remove, update, batch update, filtered removal, ClearPolicy, LoadPolicy, Save+Load, DeleteUser, DeleteRole, calls on the other definition), for g and g2 of an RBAC model (plain manager) and g of a domain model (domain manager), auto-save on; thorough adds depth-2 continuations from every state. Distinct = (target, state, call); non-trivial = the state or the call involves at least one grouping rule."
 		targets := []c05Target{
 			{conf: machRBAC, pt: "g", rules: [][]string{{"alice", "admin"}, {"bob", "admin"}, {"admin", "root"}, {"root", "alice"}},
-				other: "g2", otherR: [][]string{{"data1", "grp"}}, names: []string{"alice", "bob", "admin", "root"}},
+				other: "g2", otherR: [][]string{{"data1", "grp"}}, names: []string{"alice", "bob", "admin", "root", "data1", "grp"}},
 			{conf: machRBAC, pt: "g2", rules: [][]string{{"data1", "grp"}, {"data2", "grp"}, {"grp", "all"}, {"grp", "data1"}},
-				other: "g", otherR: [][]string{{"alice", "admin"}}, names: []string{"data1", "data2", "grp", "all"}},
+				other: "g", otherR: [][]string{{"alice", "admin"}}, names: []string{"data1", "data2", "grp", "all", "alice", "admin"}},
 			{conf: machDomain, pt: "g", rules: [][]string{{"alice", "admin", "d1"}, {"alice", "admin", "d2"}, {"bob", "admin", "d1"}, {"admin", "root", "d1"}},
 				other: "p", otherR: [][]string{{"admin", "d1", "data1", "read"}}, names: []string{"alice", "bob", "admin", "root"}, domains: []string{"d1", "d2"}},
 		}
